@@ -29,6 +29,14 @@ import (
 //   o.limits  (same arguments, lazy expanded postings on: reservations depend on posting-size heuristics)
 //                               oracle only
 //
+//   o.limited <blocks> <mint> <maxt> <matchers> <series limit>
+//                               the TSDBStore of the first block behind store.NewLimitedStoreServer (the limit of
+//                               --store.limits.request-series on sidecar, ruler, receive and querier); oracle only
+//
+// oracle classes of o.limited: limit-exceeded-silently, truncated (as below), and
+//   limited-server-code-not-resource-exhausted   the request exceeds the limit and the call fails, but not with
+//                             ResourceExhausted (limitedServer.Send returns a plain wrapped error)
+//
 // oracle classes (both store ops; "demand" is computed from the blocks in the op line with the real matchers):
 //   limit-exceeded-silently   the call succeeded with more series (chunks) than the series (chunks) limit
 //   truncated                 the call succeeded but returned something else than the same call without limits
@@ -217,6 +225,45 @@ func execStLimits(c *hlib.Ctx, tok []string) string {
 	return "exhausted"
 }
 
+func execLimited(c *hlib.Ctx, tok []string) string {
+	if len(tok) != 6 {
+		return "bad-op"
+	}
+	r, ok := parseStReq([]string{tok[0], "tsdb", tok[1], tok[2], tok[3], tok[4], "-"})
+	limit, err := strconv.ParseUint(tok[5], 10, 64)
+	if !ok || err != nil {
+		return "bad-op"
+	}
+	free, ferr, _ := r.series(false)
+	if ferr != nil {
+		return "free:" + errEnum(ferr)
+	}
+	want, _ := countResp(free.frames)
+	// the limiter of limitedStoreServer counts every series message, frames of one series included
+	frames := len(free.frames)
+	lim := store.NewLimitedStoreServer(r.b.tsdbs[0], nil, store.SeriesSelectLimits{SeriesPerRequest: limit})
+	srv := &seriesServer{ctx: context.Background()}
+	req := &storepb.SeriesRequest{MinTime: r.mint, MaxTime: r.maxt, Matchers: r.sms, PartialResponseStrategy: storepb.PartialResponseStrategy_ABORT}
+	serr := lim.Series(req, srv)
+	if serr == nil {
+		got, _ := countResp(srv.frames)
+		if limit > 0 && uint64(got) > limit {
+			c.Violation("limit-exceeded-silently", fmt.Sprintf("%d series returned through the limited server, limit %d", got, limit))
+		}
+		if canonSeries(srv.frames, false) != canonSeries(free.frames, false) {
+			c.Violation("truncated", "the limited server succeeded with another answer than the store behind it")
+		}
+		return fmt.Sprintf("ok s=%d", got)
+	}
+	code := status.Code(serr)
+	if limit == 0 || uint64(frames) <= limit {
+		c.Violation("spurious-exhausted", fmt.Sprintf("the limited server failed (%v) although the answer has %d series messages, limit %d", serr, frames, limit))
+	} else if code != codes.ResourceExhausted {
+		c.Violation("limited-server-code-not-resource-exhausted", fmt.Sprintf("%d series (%d messages) exceed the limit %d and the call fails with code %s: %v", want, frames, limit, code, serr))
+	}
+	return "failed:" + code.String()
+}
+
 func execC09(c *hlib.Ctx, tok []string) string {
 	if len(tok) == 0 {
 		return "bad-op"
@@ -226,6 +273,8 @@ func execC09(c *hlib.Ctx, tok []string) string {
 		return execLimSeq(tok)
 	case "st.limits", "o.limits":
 		return execStLimits(c, tok)
+	case "o.limited":
+		return execLimited(c, tok)
 	}
 	return "bad-op"
 }
@@ -265,6 +314,27 @@ func genC09(c *hlib.Ctx) {
 			c.Count("lim:random")
 		}
 		c.Do(fmt.Sprintf("lim.seq %d %s", limit, hlib.Ints(ns, ",")), k > 0)
+	}
+	// ---- the limited store server in front of a TSDB store
+	for i, n := 0, c.N(6, 150); i < n; i++ {
+		g := &storeGen{r: r, storedPool: []int{1, 2, 4, 5, 7, 9, 11}, extPool: []int{5, 6, 9, 11}}
+		blocks := g.genBlocks(1, 10, 0)
+		tb := showBlocks(blocks)
+		for q, m := 0, c.N(12, 30); q < m; q++ {
+			ms := g.genMatchers(blocks)
+			pr, ok := parseStReq([]string{"o.limited", "tsdb", tb, "-10", "100000", showMatchers(ms), "-"})
+			if !ok {
+				continue
+			}
+			free, ferr, _ := pr.series(false)
+			if ferr != nil {
+				continue
+			}
+			k := len(free.frames)
+			limit := pickInt(r, 0, max(k-1, 1), max(k-1, 1), max(k-2, 1), max(k, 1), k+1, r.Range(1, k+2))
+			ans := c.Do(fmt.Sprintf("o.limited %s -10 100000 %s %d", tb, showMatchers(ms), limit), true)
+			c.Count("limited:" + strings.Fields(ans)[0])
+		}
 	}
 	// ---- the store gateway
 	nStores, nReq := c.N(10, 300), c.N(24, 50) // writing a block costs 0.1-0.4 s (write buffers of the Prometheus writers), a request ~1 ms
